@@ -4,6 +4,7 @@ package main
 
 import (
 	"fmt"
+	"go/constant"
 	"go/types"
 	"os"
 	"path/filepath"
@@ -33,6 +34,9 @@ type FuncReport struct {
 	ResultSyms   []string
 	fnObj        *ssa.Function
 	Skipped      int
+	NObl         int
+	IsTrusted    bool
+	OnlyPat      string
 	fc           *FuncContract
 }
 
@@ -67,6 +71,22 @@ func (x *Exec) globalFacts(s *State, pkg *ssa.Package) {
 			if !ok {
 				continue
 			}
+			// var X = []byte("literal"): length and contents are known (A-globals: never mutated)
+			if cv, isConv := st.Val.(*ssa.Convert); isConv {
+				if c, isConst := cv.X.(*ssa.Const); isConst && c.Value != nil && isString(c.Type()) {
+					if sl, isSl := cv.Type().Underlying().(*types.Slice); isSl && len(constant.StringVal(c.Value)) <= 64 {
+						lit := constant.StringVal(c.Value)
+						h := x.heapGet(s, x.globalKey(g), SSlice)
+						E := x.heapGet(s, x.elemKey(sl.Elem()), SArr(SInt, SArr(SInt, x.sortOf(sl.Elem()))))
+						s.assume(And(Eq(slLen(h), IntLit(int64(len(lit)))), Not(Eq(slArr(h), IntLit(0))), ILe(slLen(h), slCap(h)), ILe(IntLit(0), slOff(h))))
+						if x.sortOf(sl.Elem()) == SInt {
+							for i := 0; i < len(lit); i++ {
+								s.assume(Eq(Select(Select(E, slArr(h)), IAdd(slOff(h), IntLit(int64(i)))), IntLit(int64(lit[i]))))
+							}
+						}
+					}
+				}
+			}
 			if _, isCall := st.Val.(*ssa.Call); !isCall {
 				if _, isMI := st.Val.(*ssa.MakeInterface); !isMI {
 					continue
@@ -76,6 +96,7 @@ func (x *Exec) globalFacts(s *State, pkg *ssa.Package) {
 			if _, isI := elem.Underlying().(*types.Interface); !isI {
 				continue
 			}
+			_ = elem
 			h := x.heapGet(s, x.globalKey(g), SIface)
 			s.assume(Not(Eq(ifTag(h), IntLit(0))))
 		}
